@@ -1018,7 +1018,11 @@ impl<'a> Gen<'a> {
     }
 
     pub fn set_op(&mut self, rng: &Prng) {
-        if rng.chance(1, 2) {
+        if rng.chance(1, 4) {
+            // the host's clock starts / stops refusing `set_properties`
+            self.out.count("gen.clock-props-fail");
+            self.emit(format!("SET clock_props_fail {}", rng.chance(2, 3) as u8));
+        } else if rng.chance(1, 2) {
             let b = rng.chance(1, 2);
             self.w.slave_only = b;
             self.emit(format!("SET slave_only {}", b as u8));
